@@ -18,19 +18,37 @@ VARIABLES F, T, v, kind
 Formats == {"json", "orjson", "yaml", "msgpack", "toml"}
 FLeaves == { <<"int">>, <<"float">>, <<"bool">>, <<"str">>, <<"datetime">>, <<"date">>, <<"time">>, <<"timedelta">>,
              <<"text", "uuid">>, <<"text", "decimal">>, <<"bytes">>, <<"bytearray">>, Color, Prio, <<"tz">> }
-FKeys == { <<"str">>, Mode }          \* "string map keys": key TYPES that are text (a native date key is not representable)
-Ctor4(E) == { <<c, e>> : c \in {"list", "opt", "vtuple", "set", "deque"}, e \in E \cap KeyLeaves }
+\* "string map keys": keys that are text IN THE DOCUMENT.  str / StrEnum everywhere; date / UUID keys are converted to text by
+\* every format dialect that does not declare them native (TOML keeps date, orjson keeps date and UUID native: a native
+\* object is not representable as a key there)
+FKeys == { <<"str">>, Mode }
+FKeysOf(f) == IF f \in {"toml", "orjson"} THEN FKeys \cup { <<"text", "decimal">> } ELSE FKeys \cup { <<"date">>, <<"text", "uuid">> }
+Ctor4(E, f) == { <<c, e>> : c \in {"list", "opt", "vtuple", "set", "deque"}, e \in E \cap KeyLeaves }
             \cup { <<c, e>> : c \in {"list", "opt"}, e \in E }
-            \cup { <<"dict", k, e>> : k \in FKeys, e \in E }
+            \cup { <<"dict", k, e>> : k \in FKeysOf(f), e \in E }
             \cup { <<"tuple", <<e, <<"str">> >> >> : e \in E }
             \cup { <<"ntuple", "NT", << <<"a", e, <<"req">> >>, <<"b", <<"int">>, <<"val", I(9)>> >> >> >> : e \in E }
-Shapes == FLeaves \cup Ctor4(FLeaves) \cup { <<"list", <<"dict", <<"str">>, e>> >> : e \in {<<"datetime">>, <<"bytes">>, <<"int">>} }
+Shapes(f) == FLeaves \cup Ctor4(FLeaves, f) \cup { <<"list", <<"dict", <<"str">>, e>> >> : e \in {<<"datetime">>, <<"bytes">>, <<"int">>} }
 
 \* every shape is exercised as the field of a dataclass with the format's mixin AND as a plain dataclass through the format's codec
 MixinOf(f) == f
 HolderF(f, t, plain) ==
   <<"dc", "HF", << <<"f", t, <<"req">>, <<>> >>, <<"g", <<"opt", t>>, <<"val", None>>, <<>> >>, <<"n", <<"opt", <<"int">> >>, <<"val", None>>, <<>> >> >>,
     << <<"mixin", IF plain THEN "plain" ELSE MixinOf(f)>> >> >>
+
+\* a class whose fields refer to typing.Self (Optional[Self], List[Self]) with the format's mixin: <<"fwd", "#self", U>> is
+\* the annotation Self, U its meaning unfolded to the depth the values need
+RECURSIVE SelfT(_, _)
+SelfT(f, k) ==
+  LET U == IF k = 0 THEN <<"none">> ELSE SelfT(f, k - 1) IN
+  <<"dc", "SN", << <<"payload", <<"bytes">>, <<"req">>, <<>> >>, <<"when", <<"date">>, <<"req">>, <<>> >>,
+                   <<"next", <<"opt", <<"fwd", "#self", U>> >>, <<"val", None>>, <<>> >>,
+                   <<"kids", <<"list", <<"fwd", "#self", U>> >>, <<"fac", L(<<>>)>>, <<>> >> >>,
+    << <<"mixin", f>> >> >>
+SN(b, y, nx, ks) == <<"obj", "SN", << <<"bytes", b>>, <<"date", y, 2, 3>>, nx, L(ks)>> >>
+SelfValues == { SN(<<1, 2>>, 2024, None, <<>>),
+                SN(<<104, 101>>, 2024, SN(<<255, 116>>, 2023, None, <<>>), <<>>),
+                SN(<<1>>, 2024, SN(<<2>>, 2023, SN(<<3>>, 2022, None, <<>>), <<>>), << SN(<<4>>, 2021, None, <<>>), SN(<<5>>, 2020, None, << SN(<<6>>, 2019, None, <<>>) >>) >>) }
 
 \* ---- representable subset of each format (statement C04)
 RECURSIVE HasAwareTime(_)
@@ -74,7 +92,9 @@ Parsed(w) ==
     [] OTHER -> w
 
 Init == F = "none" /\ T = <<"start">> /\ v = <<"nov">> /\ kind = "start"
-Next == \/ kind = "start" /\ F' \in Formats /\ \E t \in Shapes, p \in BOOLEAN : T' = HolderF(F', t, p) /\ v' = v /\ kind' = "type"
+Next == \/ kind = "start" /\ F' \in Formats /\ \E t \in Shapes(F'), p \in BOOLEAN : T' = HolderF(F', t, p) /\ v' = v /\ kind' = "type"
+        \/ kind = "start" /\ F' \in Formats /\ T' = SelfT(F', 3) /\ v' = v /\ kind' = "selftype"
+        \/ kind = "selftype" /\ F' = F /\ T' = T /\ v' \in SelfValues /\ kind' = "value"
         \/ kind = "type" /\ F' = F /\ T' = T /\ v' \in { x \in Range(Smp(T)) : Representable(F, x) /\ NullsRestorable(F, T, x) } /\ kind' = "value"
 
 Doc == Parsed(Pack(T, CxF(F), v))
